@@ -27,9 +27,8 @@ def read_lammpslog(filename) -> [pd.DataFrame]:
     start = [i for i, val in enumerate(data) if val.startswith("Step ")]
     end = [i for i, val in enumerate(data) if val.startswith("Loop time of ")]
 
-    if data[-1] != "\n":
-        if data[-1].split()[0].isnumeric():  # incomplete log file
-            end.append(len(data) - 2)
+    if len(start) > len(end):  # incomplete log file: the last section has no terminator
+        end.append(max(len(data) - 2, start[-1] + 1))
 
     start = np.array(start)
     end = np.array(end)
